@@ -2,7 +2,7 @@
 """Run every check against the corpora of /verif: benign/ (behaviour-preserving refactorings, must
 stay silent everywhere) and seeded/ (property-breaking changes, the target property must fire).
 
-    tools/corpus.py [benign|seeded|all] [name filter ...] [--deep]
+    tools/corpus.py [benign|seeded|all] [name filter ...] [--deep] [--props=C16,C18]
 
 Scratch copies live in a temporary directory and are removed.  Nothing of the repository is run."""
 import json
@@ -17,6 +17,9 @@ VERIF = os.path.dirname(os.path.dirname(os.path.abspath(__file__)))
 sys.path.insert(0, VERIF)
 REPO = '/repo'
 PROPS = ['C%02d' % i for i in range(1, 21)]
+for _a in sys.argv[1:]:
+    if _a.startswith('--props='):
+        PROPS = _a[len('--props='):].split(',')
 
 
 def job(args):
